@@ -184,6 +184,69 @@ def ci_literal(s):
     return z3.Concat(*parts) if len(parts) > 1 else parts[0]
 
 
+# ---- rule order inside a grammar context (first rule that matches at a position wins) -----------------------------------
+REG_SCOPE, INS_SCOPE, MAC_SCOPE = 'variable.language.register', 'variable.function.instruction', 'variable.function.macro'
+
+
+def sublime_contexts(syn):
+    """-> {context name: [(kind, pattern, scope)]} for the operand context pushed by the instruction / macro rule and for
+    `main`, includes flattened in order"""
+    ctx = syn['contexts']
+
+    def flat(items, depth=0):
+        out = []
+        if depth > 6:
+            return out
+        for it in items:
+            if 'include' in it:
+                out += flat(ctx.get(it['include'], []), depth + 1)
+            elif 'match' in it:
+                out.append(('pop' if it.get('pop') else 'match', it['match'], it.get('scope', '')))
+        return out
+    res = {'sublime.main': flat(ctx['main'])}
+    for d in ctx['instructions']:
+        if d.get('scope') == INS_SCOPE and isinstance(d.get('push'), list):
+            res['sublime.instruction-operands'] = flat(d['push'])
+        elif d.get('scope') == MAC_SCOPE and isinstance(d.get('push'), list):
+            res['sublime.macro-operands'] = flat(d['push'])
+    return res
+
+
+def tm_contexts(g):
+    rep = g['repository']
+
+    def entry(rule, name=''):
+        if 'include' in rule:
+            nm = rule['include'].lstrip('#')
+            return entry(rep.get(nm, {}), nm)
+        if 'match' in rule:
+            return [('match', rule['match'], rule.get('name', name))]
+        if 'begin' in rule:
+            sc = rule.get('beginCaptures', {}).get('0', {}).get('name') or rule.get('name', name)
+            return [('match', rule['begin'], sc)]
+        out = []
+        for r in rule.get('patterns', []):
+            out += entry(r, name)
+        return out
+
+    def inside(rule):
+        out = [('pop', rule['end'], '')] if 'end' in rule else []
+        for r in rule.get('patterns', []):
+            out += entry(r)
+        return out
+    res = {'vscode.main': [e for r in g['patterns'] for e in entry(r)]}
+    if 'instructions' in rep:
+        res['vscode.instruction-operands'] = inside(rep['instructions'])
+    if 'macros' in rep:
+        res['vscode.macro-operands'] = inside(rep['macros'])
+    return res
+
+
+def real_match_at_start(pattern, token, at_bol):
+    c = re.compile(pattern)
+    return (c.match(token, 0) if at_bol else c.match(' ' + token, 1)) is not None
+
+
 # ---- the shape ------------------------------------------------------------------------------------------------------
 class VocabShape(Shape):
     kind = 'STR'
@@ -224,6 +287,7 @@ class VocabShape(Shape):
             yaml.safe_dump(self.config(), f, sort_keys=False)
         problems = []
         pats = {}
+        contexts = {}
         try:
             vs = os.path.join(self.tmp, 'vscode')
             os.makedirs(vs, exist_ok=True)
@@ -263,6 +327,7 @@ class VocabShape(Shape):
             for item in rep['operators']['patterns']:
                 if item['name'] == 'keyword.operator.word':
                     pats['vscode.functions'] = item['match']
+            contexts.update(tm_contexts(g))
         except SystemExit as e:
             problems.append(f'vscode generator exited: {e.code}')
         except Exception as e:  # noqa
@@ -308,10 +373,12 @@ class VocabShape(Shape):
             for rule in ctx['numerical_expressions']:
                 if rule.get('scope') == 'keyword.operator.word':
                     pats['sublime.functions'] = rule['match']
+            contexts.update(sublime_contexts(syn))
         except SystemExit as e:
             problems.append(f'sublime generator exited: {e.code}')
         except Exception as e:  # noqa
             problems.append(f'sublime generator crashed: {type(e).__name__}: {e}')
+        pats['__contexts__'] = contexts
         return ('ok', pats, problems)
 
     def vocab(self, cls):
@@ -384,10 +451,84 @@ class VocabShape(Shape):
                     m = re.search(pattern, f' {lead}{w} ') if w else None
                     inv = (w.lower() if (ci or flags) else w) in [(prefix + v).lower() if (ci or flags) else prefix + v for v in words]
                     obl.append((f'C20.{key}.nothing_outside_the_vocabulary_is_classified', z3.BoolVal(m is None or inv)))
+        obl += self.judge_rule_order(env, pats.get('__contexts__', {}))
         return obl
 
+    def judge_rule_order(self, env, contexts):
+        """a register in operand position / a mnemonic or macro name at the start of a statement is claimed by its own
+        rule before any earlier rule of the same context (rule order is precedence in both grammar formats)"""
+        from . import rx
+        obl = []
+        p = self.params
+        wanted = []
+        if p.get('registers'):
+            for c in ('instruction-operands',) + (('macro-operands',) if p.get('macros') else ()):
+                wanted.append((c, REG_SCOPE, 'registers', False))
+        wanted.append(('main', INS_SCOPE, 'instructions', True))
+        if p.get('macros'):
+            wanted.append(('main', MAC_SCOPE, 'macros', True))
+        for ed in ('vscode', 'sublime'):
+            for cname, scope, cls, bol in wanted:
+                key = f'{ed}.{cname}'
+                tag = f'C20.{key}.{cls}_are_claimed_by_their_own_rule_first'
+                rules = contexts.get(key)
+                if rules is None:
+                    obl.append((f'C20.{key}.context_is_emitted', z3.BoolVal(False)))
+                    continue
+                idx = next((i for i, r in enumerate(rules) if r[2] == scope), None)
+                if idx is None:
+                    obl.append((tag, z3.BoolVal(False)))
+                    continue
+                words, prefix, ci = self.vocab(cls)
+                wname = f'o_{ed}_{cname.replace("-", "_")}_{cls}'
+                w = env.string(wname)
+                if env.symbolic:
+                    langs = []
+                    for kind, pat, _ in rules[:idx + 1]:
+                        try:
+                            L = rx.match_language(pat, at_bol=bol)
+                        except rx.Unsupported as u:
+                            raise E.Inconclusive(f'{key}: rule pattern outside the translated subset ({u}): {pat[:80]}')
+                        # translator validation on the vocabulary and its neighbours, against the regex engine
+                        for t in self._probe_tokens(words):
+                            real = real_match_at_start(pat, t, bol)
+                            mod = z3.simplify(z3.InRe(z3.StringVal(t), L))
+                            if not (z3.is_true(mod) or z3.is_false(mod)):
+                                sv = z3.Solver()
+                                mod = z3.BoolVal(sv.check(z3.InRe(z3.StringVal(t), L)) == z3.sat)
+                            if z3.is_true(mod) != real:
+                                raise E.HarnessError(f'{key}: translation of {pat!r} disagrees with the regex engine on {t!r}')
+                        langs.append(L)
+                    invoc = z3.InRe(w, z3.Union(*[ci_literal(v) for v in words])) if len(words) > 1 else z3.InRe(w, ci_literal(words[0]))
+                    own = z3.InRe(w, langs[idx])
+                    earlier = [z3.InRe(w, L) for L in langs[:idx]]
+                    obl.append((tag, z3.Implies(invoc, z3.And(own, z3.Not(z3.Or(*earlier)) if earlier else z3.BoolVal(True)))))
+                else:
+                    if not w or w.lower() not in [v.lower() for v in words]:
+                        obl.append((tag, z3.BoolVal(True)))
+                        continue
+                    winner = next((i for i, r in enumerate(rules) if real_match_at_start(r[1], w, bol)), None)
+                    obl.append((tag, z3.BoolVal(winner == idx)))
+        return obl
+
+    def known_namespace(self):
+        # classes of identifiers usable in the `when` of a recorded finding
+        mnems = [m.lower() for m in self.params['mnemonics']]
+
+        def dotted_extension_of_a_mnemonic(w):
+            tail = z3.Plus(z3.Range('!', '~'))
+            return z3.Or(*[z3.InRe(w, z3.Concat(ci_literal(m + '.'), tail)) for m in mnems])
+        return {'dotted_extension_of_a_mnemonic': dotted_extension_of_a_mnemonic}
+
+    @staticmethod
+    def _probe_tokens(words):
+        out = []
+        for v in words:
+            out += [v, v.upper(), v + 'x', v + '.x', 'x' + v, v + '1', v[:-1] if len(v) > 1 else v + '_']
+        return out + ['0x1f', '12', '1fH', '$ff', '%01', 'b1', 'x_1', '.org', "'a'", '(', '[', '[[', 'a:', 'EQU', '==', '+', ';', '#define']
+
     def summarize(self, out, model):
-        return {'kind': out[0], 'patterns': out[1], 'problems': out[2]}
+        return {'kind': out[0], 'patterns': {k: v for k, v in out[1].items() if not k.startswith('__')}, 'problems': out[2]}
 
     def describe(self):
         return {'shape': self.sid, **{k: v for k, v in self.params.items()}}
@@ -402,6 +543,9 @@ VOCABS = {
     'dotted': dict(mnemonics=['ld.b', 'ld.w', 'ld', 'st.b'], registers=['a'], macros=['cp.w']),
     'mixed-case': dict(mnemonics=['MOV', 'Add', 'jMp'], registers=['A', 'ix'], macros=['Push2'], predefined=['Reset']),
     'underscores-digits': dict(mnemonics=['op_1', 'op_12', '_x'], registers=['r_0', 'r_00'], predefined=['_start', 'v2']),
+    'numeric-like-registers': dict(mnemonics=['mov', 'ld'], registers=['a', 'b0', 'b1', 'b10', 'ah', 'hl'], macros=['ldm']),
+    'macro-extends-mnemonic': dict(mnemonics=['ld', 'st'], registers=['a'], macros=['ldx', 'st2', 'xld']),
+    'macro-dotted-extension-of-mnemonic': dict(mnemonics=['nop', 'ld'], registers=['a'], macros=['nop.all', 'st.w']),
     'single-letter': dict(mnemonics=['a', 'b'], registers=['c'], macros=['d'], predefined=['e']),
 }
 
